@@ -28,6 +28,7 @@ def afm_attr_alphabet():
         ('att', A([], ['"s"'], '"s"', '"s"')),
         ('a', A([], ['Abc', 'x1'], 'Abc', 'x1')),
         ('tox', A([(0, 100)], [], '0', '100')),
+        ('big', A([(2 ** 53 + 1, 2 ** 63 - 1)], [], str(2 ** 53 + 1), str(2 ** 63 - 1))),
         ('att', A([], ['"a b"', '"c, d"'], '"a b"', '"c, d"')),
         ('att', A([], ['"a  b"', '"c   d "'], '"a  b"', '"c   d "')),
         ('att', A([], ['"a\r\nb"', '"\r"', '"\n"'], '"\r"', '"\n"')),
